@@ -159,9 +159,9 @@ def proof_stage(prop, plan, tier, registry):
     res = solve_all(jobs)
     # anything left open gets a second, longer, less crowded attempt before a verdict is drawn
     # (keeps verdicts stable when the machine is busy)
-    retry = [(n, smt, 6 * tmo, cv) for (n, smt, tmo, cv) in jobs if cv and res.get(n, {}).get("result") not in ("unsat", "sat")]
-    if retry and len(retry) <= 64 and not os.environ.get("VERIF_NO_RETRY"):
-        res2 = solve_all(retry, workers=8)
+    retry = [(n, smt, 3 * tmo, cv) for (n, smt, tmo, cv) in jobs if cv and res.get(n, {}).get("result") not in ("unsat", "sat")]
+    if retry and len(retry) <= 24 and not os.environ.get("VERIF_NO_RETRY"):
+        res2 = solve_all(retry, workers=12)
         for n, r in res2.items():
             r["time"] = (r.get("time") or 0.0) + (res[n].get("time") or 0.0)
             r["retried"] = True
